@@ -1,5 +1,6 @@
 import SvModel.Props.GrammarWF
 import SvModel.Lemmas.Strict
+import SvModel.Lemmas.Incomplete
 import SvModel.Lemmas.Tree
 /-!
 # C01 — the concrete syntax tree is lossless: leaves tile the preprocessed text
@@ -41,18 +42,6 @@ theorem C01_prefix (f : Nat) (inp : Input) (fuel : Nat) (st st' : PState) (q : N
     (h : parseWith grammar inp f st fuel = (.ok q r ts, st')) : q ≤ inp.size :=
   Chain.end_le' (C01_tiling f inp fuel st st' q r ts h) (Nat.zero_le _)
 
-theorem find_clear (m : Memo) (k : MKey) : m.clear.find? k = none := by
-  simp [Memo.clear, Memo.find?]
-
-/-- a call of a non-recursive production whose key is not in the memo yields the outcome of its body -/
-theorem evalCall_fresh (g : Grammar) (inp : Input) (n f pos : Nat) (r : Rec) (st : PState)
-    (hm : st.memo.find? (f, pos, decide (st.dir > 0)) = none) (hr : (g.prod f).recursive = false) :
-    (evalCall g inp (n + 1) f pos r st).1 = (eval g inp n (g.prod f).body pos r st).1 := by
-  simp only [evalCall, hm, hr, ite_self, Bool.false_eq_true, if_false]
-  split
-  · split <;> simp_all
-  · rfl
-
 /-- the two strict entry productions end with `many_till(_, eof)` — checked on the generated grammar -/
 theorem strict_entries :
     Strict (grammar.prod idx_source_text).body = true ∧ Strict (grammar.prod idx_library_text).body = true ∧
@@ -80,7 +69,7 @@ theorem C01_strict_covers_all (f : Nat) (hf : f = idx_source_text ∨ f = idx_li
       | zero => simp [evalCall] at h
       | succ m =>
         have hb := (strictSpec grammar inp m).eval (grammar.prod f).body 0 {} st.init hs.1
-        have hc := evalCall_fresh grammar inp m f 0 {} st.init (find_clear _ _) hs.2
+        have hc := evalCall_fresh grammar inp m f 0 {} st.init (find_clear st.memo _) hs.2
         rw [h] at hc
         rw [← hc] at hb
         simpa [EndsO] using hb
